@@ -1268,39 +1268,554 @@ fn note_clauses(
     }
 }
 
-/// 7/8: legacy encodings round-trip (Sapling Bech32, transparent Base58Check)
-fn legacy_cases(cx: &mut Ctx, net: Net, usk: &UnifiedSpendingKey) {
-    use zcash_keys::encoding::*;
-    use zcash_protocol::consensus::NetworkConstants;
+// ---------------------------------------------------------------------------------------------
+// zcash_keys::encoding — every public function, on all three networks
+
+use bech32::Bech32;
+use zcash_keys::encoding::{self as enc, AddressCodec, Bech32DecodeError, TransparentCodecError};
+use zcash_protocol::consensus::NetworkConstants;
+
+/// what the primitive Bech32 decoder makes of a string
+fn unbech32(s: &str) -> Option<(String, B)> {
+    let p = CheckedHrpstring::new::<Bech32>(s).ok()?;
+    Some((p.hrp().as_str().to_string(), p.byte_iter().collect()))
+}
+fn p_binput(s: &str) -> String {
+    match unbech32(s) {
+        None => "BNot".into(),
+        Some((h, d)) => format!("(BStr {} {})", hx(h.as_bytes()), hx(&d)),
+    }
+}
+fn p_benc(s: &str) -> String {
+    match unbech32(s) {
+        None => format!("({}, {})", hx(&[0xff]), hx(&[])), // never equal to a model value
+        Some((h, d)) => format!("({}, {})", hx(h.as_bytes()), hx(&d)),
+    }
+}
+fn p_berr(e: &Bech32DecodeError) -> &'static str {
+    match e {
+        Bech32DecodeError::Bech32Error(_) | Bech32DecodeError::Hrp(_) => "(Err BechErr)",
+        Bech32DecodeError::ReadError => "(Err BReadError)",
+        Bech32DecodeError::HrpMismatch { .. } => "(Err BHrpMismatch)",
+    }
+}
+fn fvk_bytes(k: &sapling::zip32::ExtendedFullViewingKey) -> B {
+    let mut v = vec![];
+    k.write(&mut v).unwrap();
+    v
+}
+/// reader oracles 19/20/21 for the payload of a string
+fn reader_tab(tab: &mut Tab, s: &str) {
+    if let Some((_, d)) = unbech32(s) {
+        let d1 = d.clone();
+        let r = catch(move || sapling::zip32::ExtendedSpendingKey::read(&d1[..]).ok().map(|k| k.to_bytes().to_vec()));
+        tab.add(19, &d, 0, p_ores(r));
+        let d2 = d.clone();
+        let r = catch(move || sapling::zip32::ExtendedFullViewingKey::read(&d2[..]).ok().map(|k| fvk_bytes(&k)));
+        tab.add(20, &d, 0, p_ores(r));
+        if d.len() == 43 {
+            let d3 = d.clone();
+            let r = catch(move || arr::<43>(&d3).and_then(|a| sapling::PaymentAddress::from_bytes(&a)).map(|a| a.to_bytes().to_vec()));
+            tab.add(21, &d, 0, p_ores(r));
+        }
+    }
+}
+fn p_ob(o: Option<&[u8]>) -> String {
+    match o {
+        Some(b) => format!("(Some {})", hx(b)),
+        None => "None".into(),
+    }
+}
+const LK: [&str; 3] = ["LSk", "LFvk", "LAddr"];
+
+/// decode_* with an explicit HRP (kind 0 extsk, 1 extfvk, 2 payment address)
+fn ldec_case(cx: &mut Ctx, kind: usize, hrp: &str, s: &str, orig: Option<&[u8]>) {
+    let mut tab = Tab::default();
+    reader_tab(&mut tab, s);
+    let o = match kind {
+        0 => match catch(|| enc::decode_extended_spending_key(hrp, s)) {
+            None => PANIC.into(),
+            Some(Ok(k)) => ok(hx(&k.to_bytes())),
+            Some(Err(e)) => p_berr(&e).into(),
+        },
+        1 => match catch(|| enc::decode_extended_full_viewing_key(hrp, s)) {
+            None => PANIC.into(),
+            Some(Ok(k)) => ok(hx(&fvk_bytes(&k))),
+            Some(Err(e)) => p_berr(&e).into(),
+        },
+        _ => match catch(|| enc::decode_payment_address(hrp, s)) {
+            None => PANIC.into(),
+            Some(Ok(k)) => ok(hx(&k.to_bytes())),
+            Some(Err(e)) => p_berr(&e).into(),
+        },
+    };
+    case(format!(
+        "CLegacy (LDec {} {} {} {} {} {})",
+        tab.print(),
+        LK[kind],
+        hx(hrp.as_bytes()),
+        p_binput(s),
+        p_ob(orig),
+        o
+    ));
+    cx.st.hit("legacy_decode");
+}
+fn lfvknet_case(cx: &mut Ctx, s: &str, orig: Option<(Net, &[u8])>) {
+    let mut tab = Tab::default();
+    reader_tab(&mut tab, s);
+    let o = match catch(|| enc::decode_extfvk_with_network(s)) {
+        None => PANIC.into(),
+        Some(Ok((n, k))) => ok(format!("({}, {})", nt_id(n), hx(&fvk_bytes(&k)))),
+        Some(Err(e)) => p_berr(&e).into(),
+    };
+    let po = match orig {
+        Some((n, k)) => format!("(Some ({}, {}))", net_id(n), hx(k)),
+        None => "None".into(),
+    };
+    case(format!("CLegacy (LFvkNet {} {} {} {})", tab.print(), p_binput(s), po, o));
+    cx.st.hit("legacy_extfvk_with_network");
+}
+fn ldecp_case(cx: &mut Ctx, net: Net, s: &str, orig: Option<&[u8]>) {
+    let mut tab = Tab::default();
+    reader_tab(&mut tab, s);
+    let o = match catch(|| <sapling::PaymentAddress as AddressCodec<Net>>::decode(&net, s)) {
+        None => PANIC.into(),
+        Some(Ok(k)) => ok(hx(&k.to_bytes())),
+        Some(Err(e)) => p_berr(&e).into(),
+    };
+    case(format!("CLegacy (LDecP {} {} {} {} {})", tab.print(), net_id(net), p_binput(s), p_ob(orig), o));
+    cx.st.hit("legacy_decode_p");
+}
+
+fn p_taddr(a: &TransparentAddress) -> String {
+    match a {
+        TransparentAddress::PublicKeyHash(h) => format!("(PKH {})", hx(h)),
+        TransparentAddress::ScriptHash(h) => format!("(SH {})", hx(h)),
+    }
+}
+fn unb58(s: &str) -> Option<B> {
+    bs58::decode(s).with_check(None).into_vec().ok()
+}
+fn p_b58(s: &str) -> String {
+    match unb58(s) {
+        Some(b) => hx(&b),
+        None => hx(&[0xff; 1]),
+    }
+}
+fn ltdec_case(cx: &mut Ctx, net: Net, pk: &[u8], sh: &[u8], s: &str, orig: Option<(Net, &TransparentAddress)>) {
+    let o = match catch(|| enc::decode_transparent_address(pk, sh, s)) {
+        None => PANIC.into(),
+        Some(Ok(a)) => ok(opt(a.map(|a| p_taddr(&a)))),
+        Some(Err(_)) => "(Err tt)".into(),
+    };
+    let po = match orig {
+        Some((n, a)) => format!("(Some ({}, {}))", net_id(n), p_taddr(a)),
+        None => "None".into(),
+    };
+    case(format!(
+        "CLegacy (LTDec {} {} {} {} {} {})",
+        net_id(net),
+        hx(pk),
+        hx(sh),
+        opt(unb58(s).map(|b| hx(&b))),
+        po,
+        o
+    ));
+    cx.st.hit("legacy_t_decode");
+}
+fn ltdecp_case(cx: &mut Ctx, net: Net, s: &str, orig: Option<(Net, &TransparentAddress)>) {
+    let o = match catch(|| <TransparentAddress as AddressCodec<Net>>::decode(&net, s)) {
+        None => PANIC.into(),
+        Some(Ok(a)) => ok(p_taddr(&a)),
+        Some(Err(TransparentCodecError::Base58(_))) => "(Err TBase58)".into(),
+        Some(Err(TransparentCodecError::UnsupportedAddressType(_))) => "(Err TUnsupported)".into(),
+    };
+    let po = match orig {
+        Some((n, a)) => format!("(Some ({}, {}))", net_id(n), p_taddr(a)),
+        None => "None".into(),
+    };
+    case(format!("CLegacy (LTDecP {} {} {} {})", net_id(net), opt(unb58(s).map(|b| hx(&b))), po, o));
+    cx.st.hit("legacy_t_decode_p");
+}
+
+fn corrupt_char(cx: &mut Ctx, s: &str) -> String {
+    let mut t = s.as_bytes().to_vec();
+    let n = t.len();
+    let i = n - 1 - cx.rng.below(6.min(n as u64 - 1)) as usize;
+    t[i] = if t[i] == b'q' { b'p' } else { b'q' };
+    String::from_utf8(t).unwrap()
+}
+
+fn legacy_cases(cx: &mut Ctx, usk: &UnifiedSpendingKey) {
     let extsk = usk.sapling();
-    let s = encode_extended_spending_key(net.hrp_sapling_extended_spending_key(), extsk);
-    let back = decode_extended_spending_key(net.hrp_sapling_extended_spending_key(), &s);
-    let ok1 = matches!(&back, Ok(k) if k.to_bytes() == extsk.to_bytes()
-        && encode_extended_spending_key(net.hrp_sapling_extended_spending_key(), k) == s);
-    let wrong = decode_extended_spending_key("zxviews", &s).is_err();
-    case(format!("CCrypto 7 {}", boolc(ok1 && wrong)));
     #[allow(deprecated)]
     let extfvk = extsk.to_extended_full_viewing_key();
-    let s = encode_extended_full_viewing_key(net.hrp_sapling_extended_full_viewing_key(), &extfvk);
-    let back = decode_extended_full_viewing_key(net.hrp_sapling_extended_full_viewing_key(), &s);
-    let ok2 = matches!(&back, Ok(k) if *k == extfvk
-        && encode_extended_full_viewing_key(net.hrp_sapling_extended_full_viewing_key(), k) == s);
-    case(format!("CCrypto 7 {}", boolc(ok2)));
     let (_, pa) = extsk.default_address();
-    let s = encode_payment_address(net.hrp_sapling_payment_address(), &pa);
-    let back = decode_payment_address(net.hrp_sapling_payment_address(), &s);
-    let ok3 = matches!(&back, Ok(a) if *a == pa && encode_payment_address(net.hrp_sapling_payment_address(), a) == s);
-    case(format!("CCrypto 7 {}", boolc(ok3)));
+    let p_sk = extsk.to_bytes().to_vec();
+    let p_fvk = fvk_bytes(&extfvk);
+    let p_pa = pa.to_bytes().to_vec();
+    let hrps = |n: Net| {
+        [
+            n.hrp_sapling_extended_spending_key(),
+            n.hrp_sapling_extended_full_viewing_key(),
+            n.hrp_sapling_payment_address(),
+        ]
+    };
+    for n in NETS {
+        let h = hrps(n);
+        let strs = [
+            enc::encode_extended_spending_key(h[0], extsk),
+            enc::encode_extended_full_viewing_key(h[1], &extfvk),
+            enc::encode_payment_address(h[2], &pa),
+        ];
+        let pls: [&[u8]; 3] = [&p_sk, &p_fvk, &p_pa];
+        for k in 0..3 {
+            case(format!("CLegacy (LEnc {} {} {} {})", LK[k], hx(h[k].as_bytes()), hx(pls[k]), p_benc(&strs[k])));
+            cx.st.hit("legacy_encode");
+            // decode under the encoding HRP, under every other network's and one other kind's
+            ldec_case(cx, k, h[k], &strs[k], Some(pls[k]));
+            for n2 in NETS {
+                if n2 != n {
+                    ldec_case(cx, k, hrps(n2)[k], &strs[k], None);
+                }
+            }
+            ldec_case(cx, k, h[(k + 1) % 3], &strs[k], None);
+            ldec_case(cx, (k + 1) % 3, h[k], &strs[k], None);
+            // malformed: checksum, case, wrong checksum variant, payload mutations
+            let bad = corrupt_char(cx, &strs[k]);
+            ldec_case(cx, k, h[k], &bad, None);
+            ldec_case(cx, k, h[k], &strs[k].to_uppercase(), None);
+            if let Ok(hp) = Hrp::parse(h[k]) {
+                let mut pl = pls[k].to_vec();
+                if let Ok(m) = bech32::encode::<bech32::Bech32m>(hp, &pl) {
+                    ldec_case(cx, k, h[k], &m, None);
+                }
+                match cx.rng.below(4) {
+                    0 => pl.truncate(pl.len() - 1 - cx.rng.below(5) as usize),
+                    1 => {
+                        let n = 1 + cx.rng.below(4) as usize;
+                        pl.extend(cx.rng.bytes(n))
+                    }
+                    2 => {
+                        let i = cx.rng.below(pl.len() as u64) as usize;
+                        pl[i] ^= 1 << cx.rng.below(8);
+                    }
+                    _ => {
+                        let i = pl.len() - 1 - cx.rng.below(pl.len().min(140) as u64) as usize;
+                        pl[i] = 0xff;
+                    }
+                }
+                if let Ok(m) = bech32::encode::<Bech32>(hp, &pl) {
+                    ldec_case(cx, k, h[k], &m, None);
+                    if k == 1 {
+                        lfvknet_case(cx, &m, None);
+                    }
+                    if k == 2 {
+                        ldecp_case(cx, n, &m, None);
+                    }
+                }
+            }
+        }
+        // decode_extfvk_with_network: the key's own string, other kinds, garbage
+        lfvknet_case(cx, &strs[1], Some((n, &p_fvk)));
+        lfvknet_case(cx, &strs[0], None);
+        lfvknet_case(cx, &strs[2], None);
+        let bad = corrupt_char(cx, &strs[1]);
+        lfvknet_case(cx, &bad, None);
+        lfvknet_case(cx, &strs[1].to_uppercase(), None);
+        // payment address: _p and AddressCodec
+        let s_p = enc::encode_payment_address_p(&n, &pa);
+        case(format!("CLegacy (LEncP 0 {} {} {})", net_id(n), hx(&p_pa), p_benc(&s_p)));
+        let s_c = <sapling::PaymentAddress as AddressCodec<Net>>::encode(&pa, &n);
+        case(format!("CLegacy (LEncP 1 {} {} {})", net_id(n), hx(&p_pa), p_benc(&s_c)));
+        for n2 in NETS {
+            ldecp_case(cx, n2, &s_c, if n2 == n { Some(&p_pa) } else { None });
+        }
+        let bad = corrupt_char(cx, &s_c);
+        ldecp_case(cx, n, &bad, None);
+    }
+
+    // transparent
     let (ta, _) = usk.default_transparent_address();
     let alt = TransparentAddress::ScriptHash(cx.rng.bytes(20).try_into().unwrap());
     for a in [ta, alt] {
-        let s = encode_transparent_address(&net.b58_pubkey_address_prefix(), &net.b58_script_address_prefix(), &a);
-        let back = decode_transparent_address(&net.b58_pubkey_address_prefix(), &net.b58_script_address_prefix(), &s);
-        let ok4 = matches!(&back, Ok(Some(b)) if *b == a
-            && encode_transparent_address(&net.b58_pubkey_address_prefix(), &net.b58_script_address_prefix(), b) == s);
-        case(format!("CCrypto 8 {}", boolc(ok4)));
+        for n0 in NETS {
+            let (pk0, sh0) = (n0.b58_pubkey_address_prefix(), n0.b58_script_address_prefix());
+            let s = enc::encode_transparent_address(&pk0, &sh0, &a);
+            case(format!("CLegacy (LTEnc {} {} {} {})", hx(&pk0), hx(&sh0), p_taddr(&a), p_b58(&s)));
+            let s_p = enc::encode_transparent_address_p(&n0, &a);
+            case(format!("CLegacy (LTEncP 0 {} {} {})", net_id(n0), p_taddr(&a), p_b58(&s_p)));
+            let s_c = <TransparentAddress as AddressCodec<Net>>::encode(&a, &n0);
+            case(format!("CLegacy (LTEncP 1 {} {} {})", net_id(n0), p_taddr(&a), p_b58(&s_c)));
+            cx.st.hit("legacy_t_encode");
+            for n in NETS {
+                let (pk, sh) = (n.b58_pubkey_address_prefix(), n.b58_script_address_prefix());
+                ltdec_case(cx, n, &pk, &sh, &s, Some((n0, &a)));
+                ltdecp_case(cx, n, &s_c, Some((n0, &a)));
+            }
+            // malformed / unusual
+            let bad = corrupt_char(cx, &s);
+            ltdec_case(cx, n0, &pk0, &sh0, &bad, None);
+            ltdecp_case(cx, n0, &bad, None);
+            let mut pl = unb58(&s).unwrap();
+            match cx.rng.below(4) {
+                0 => {
+                    pl.pop();
+                }
+                1 => pl.push(7),
+                2 => pl[0] ^= 0x40,
+                _ => pl[1] ^= 0x01,
+            }
+            let m = bs58::encode(&pl).with_check().into_string();
+            ltdec_case(cx, n0, &pk0, &sh0, &m, None);
+            ltdecp_case(cx, n0, &m, None);
+            // caller-chosen prefixes: one-byte, and one a prefix of the other
+            let s1 = enc::encode_transparent_address(&[0x00], &[0x05], &a);
+            ltdec_case(cx, n0, &[0x00], &[0x05], &s1, None);
+            ltdec_case(cx, n0, &pk0[..1], &sh0, &s, None);
+            ltdec_case(cx, n0, &pk0, &pk0[..1], &s, None);
+        }
     }
+    ltdec_case(cx, Net::Main, &[0x1c, 0xb8], &[0x1c, 0xbd], "", None);
+    ltdecp_case(cx, Net::Main, "", None);
     cx.st.hit("legacy");
+}
+
+/// 9: AddressCodec for UnifiedAddress round-trips on its own network and rejects the others
+fn ua_codec_cases(cx: &mut Ctx, net: Net, uivk: &UnifiedIncomingViewingKey) {
+    if let Ok((ua, _)) = uivk.find_address(di(0), UnifiedAddressRequest::AllAvailableKeys) {
+        let s = <UnifiedAddress as AddressCodec<Net>>::encode(&ua, &net);
+        let back = <UnifiedAddress as AddressCodec<Net>>::decode(&net, &s);
+        let mut good = matches!(&back, Ok(b) if *b == ua && <UnifiedAddress as AddressCodec<Net>>::encode(b, &net) == s);
+        for n2 in NETS {
+            if n2 != net {
+                good &= <UnifiedAddress as AddressCodec<Net>>::decode(&n2, &s).is_err();
+            }
+        }
+        case(format!("CCrypto 9 {}", boolc(good)));
+        cx.st.hit("ua_codec");
+    }
+}
+
+// ---------------------------------------------------------------------------------------------
+// gap_limits.rs
+
+use zcash_keys::address::Address;
+use zcash_keys::keys::transparent::gap_limits::{
+    generate_address_list, generate_gap_addresses, AddressStore, GapAddressesError, GapLimits,
+};
+use zcash_transparent::keys::TransparentKeyScope;
+
+/// change-level key below an account public key, derived with the bip32 crate directly
+fn orc_scope_ivk(pk: &[u8], scope: u32) -> Option<Option<B>> {
+    use bip32::{ChildNumber, ExtendedKeyAttrs, ExtendedPublicKey};
+    let a: [u8; 65] = arr(pk)?;
+    let public_key = secp256k1::PublicKey::from_slice(&a[32..]).ok()?;
+    let xp = ExtendedPublicKey::new(
+        public_key,
+        ExtendedKeyAttrs {
+            depth: 3,
+            parent_fingerprint: [0xff; 4],
+            child_number: ChildNumber::new(0, true).ok()?,
+            chain_code: a[..32].try_into().unwrap(),
+        },
+    );
+    Some(xp.derive_child(ChildNumber::new(scope, false).ok()?).ok().map(|c| {
+        let mut v = c.attrs().chain_code.to_vec();
+        v.extend_from_slice(&c.public_key().serialize());
+        v
+    }))
+}
+
+fn p_aerr_inner(e: &AddressGenerationError, scope: u32) -> String {
+    match e {
+        AddressGenerationError::Bip32DerivationError(_) => "GBip32".into(),
+        AddressGenerationError::UnsupportedTransparentKeyScope(_) => format!("(GUnsupportedScope {})", scope),
+        other => {
+            let s = p_aerr(other); // "(Err X)"
+            format!("(GAddr {})", &s[5..s.len() - 1])
+        }
+    }
+}
+fn p_gaddr(a: &Address) -> String {
+    match a {
+        Address::Unified(ua) => format!("(GUnified {})", p_ua(ua)),
+        Address::Transparent(TransparentAddress::PublicKeyHash(h)) => format!("(GTransparent {})", hx(h)),
+        _ => format!("(GTransparent {})", hx(&[0xff])),
+    }
+}
+fn p_glist(l: &[(Address, TransparentAddress, NonHardenedChildIndex)]) -> String {
+    list(l.iter().map(|(a, t, i)| {
+        let tb = match t {
+            TransparentAddress::PublicKeyHash(h) => h.to_vec(),
+            TransparentAddress::ScriptHash(_) => vec![0xff],
+        };
+        format!("({}, {}, {})", p_gaddr(a), hx(&tb), i.index())
+    }))
+}
+fn scope_of(n: u32) -> TransparentKeyScope {
+    match n {
+        0 => TransparentKeyScope::EXTERNAL,
+        1 => TransparentKeyScope::INTERNAL,
+        2 => TransparentKeyScope::EPHEMERAL,
+        x => TransparentKeyScope::custom(x).unwrap(),
+    }
+}
+
+/// oracle entries for a walk over `idxs` under `scope`
+fn gap_tab(tab: &mut Tab, mi: &MKey, mf: Option<&MKey>, scope: u32, idxs: &[u32]) {
+    if scope == 0 {
+        for i in idxs {
+            tab.uivk_at(mi, *i as u128);
+        }
+    } else if let Some(pk) = mf.and_then(|f| f.t.as_ref()) {
+        if scope <= 2 {
+            let v = orc_scope_ivk(pk, scope);
+            tab.opt(22, pk, scope as u128, v.clone());
+            if let Some(ivk) = v.flatten() {
+                for i in idxs {
+                    tab.opt(9, &ivk, *i as u128, orc_t_addr(&ivk, *i));
+                }
+            }
+        }
+    }
+}
+fn walk(start: u32, end: u32) -> Vec<u32> {
+    // superset of the indices the iterator visits
+    let mut v = vec![start];
+    let mut x = start;
+    while x + 1 < end && v.len() < 64 {
+        x += 1;
+        v.push(x);
+    }
+    v
+}
+
+struct MockStore {
+    find: Result<Option<NonHardenedChildIndex>, ()>,
+    store_ok: bool,
+    asked: Option<u32>,
+    stored: Option<Vec<(Address, TransparentAddress, NonHardenedChildIndex)>>,
+}
+impl AddressStore for MockStore {
+    type Error = ();
+    type AccountRef = u32;
+    fn find_gap_start(
+        &self,
+        _a: u32,
+        _s: TransparentKeyScope,
+        _gap_limit: u32,
+    ) -> Result<Option<NonHardenedChildIndex>, ()> {
+        self.find
+    }
+    fn store_address_range(
+        &mut self,
+        _a: u32,
+        _s: TransparentKeyScope,
+        list: Vec<(Address, TransparentAddress, NonHardenedChildIndex)>,
+    ) -> Result<(), ()> {
+        self.stored = Some(list);
+        if self.store_ok {
+            Ok(())
+        } else {
+            Err(())
+        }
+    }
+}
+
+fn gap_cases(
+    cx: &mut Ctx,
+    net: Net,
+    isubs: &[UnifiedIncomingViewingKey],
+    fsubs: &[UnifiedFullViewingKey],
+    reqs: &[UnifiedAddressRequest],
+    n: usize,
+) {
+    const MAXI: u32 = (1 << 31) - 1;
+    // GapLimits::limit_for
+    for (e, i, p) in [(10u32, 5u32, 10u32), (0, 0, 0), (1, 2, 3), (u32::MAX, 7, MAXI)] {
+        let g = GapLimits::new(e, i, p);
+        for sc in [0u32, 1, 2, 3, MAXI] {
+            let o = g.limit_for(scope_of(sc));
+            case(format!("CGap (GLimit {} {} {} {} {})", e, i, p, sc, opt(o.map(|x| x.to_string()))));
+        }
+    }
+    let d = GapLimits::default();
+    case(format!("CGap (GLimit {} {} {} 0 {})", d.external(), d.internal(), d.ephemeral(), opt(d.limit_for(scope_of(0)).map(|x| x.to_string()))));
+    for _ in 0..n {
+        let i = if cx.rng.chance(2, 3) { isubs.last().unwrap().clone() } else { cx.rng.pick(isubs).clone() };
+        let f = if cx.rng.chance(1, 8) {
+            None
+        } else if cx.rng.chance(2, 3) {
+            Some(fsubs.last().unwrap().clone())
+        } else {
+            Some(cx.rng.pick(fsubs).clone())
+        };
+        let ie = catch(|| i.encode(&net));
+        let mi = m_uivk(&i, ie.as_deref());
+        let mf = f.as_ref().map(|f| {
+            let fe = catch(|| f.encode(&net));
+            m_ufvk(f, fe.as_deref())
+        });
+        let pf = match &mf {
+            Some(k) => format!("(Some {})", p_ufvk(k)),
+            None => "None".into(),
+        };
+        let sc = *cx.rng.pick(&[0u32, 0, 0, 1, 1, 2, 2, 3, 9]);
+        let r = *cx.rng.pick(reqs);
+        let require_key = cx.rng.bool();
+        let start = *cx.rng.pick(&[0u32, 0, 1, 7, 1000, MAXI - 3, MAXI - 1, MAXI]);
+        let len = *cx.rng.pick(&[0u32, 1, 2, 3, 5]);
+        if cx.rng.bool() {
+            // generate_address_list on an explicit range (also empty and inverted ones)
+            let end = if cx.rng.chance(1, 8) { start.saturating_sub(1) } else { start.saturating_add(len).min(MAXI) };
+            let mut tab = Tab::default();
+            gap_tab(&mut tab, &mi, mf.as_ref(), sc, &walk(start, end));
+            let range = NonHardenedChildIndex::from_index(start).unwrap()..NonHardenedChildIndex::from_index(end).unwrap();
+            let o = match catch(|| generate_address_list(&i, f.as_ref(), scope_of(sc), r, range, require_key)) {
+                None => PANIC.into(),
+                Some(Ok(l)) => ok(p_glist(&l)),
+                Some(Err(e)) => format!("(Err {})", p_aerr_inner(&e, sc)),
+            };
+            case(format!(
+                "CGap (GList {} {} {} {} {} {} {} {} {})",
+                tab.print(), p_uivk(&mi), pf, sc, p_request(&r), start, end, boolc(require_key), o
+            ));
+            cx.st.hit("gap_list");
+        } else {
+            let (e, ii, p) = *cx.rng.pick(&[(10u32, 5u32, 10u32), (0, 0, 0), (1, 2, 3), (3, 3, 3)]);
+            let g = GapLimits::new(e, ii, p);
+            let gl = match sc { 0 => e, 1 => ii, 2 => p, _ => 0 };
+            let find = match cx.rng.below(8) {
+                0 => Err(()),
+                1 => Ok(None),
+                _ => Ok(Some(NonHardenedChildIndex::from_index(start).unwrap())),
+            };
+            let store_ok = !cx.rng.chance(1, 8);
+            let mut tab = Tab::default();
+            gap_tab(&mut tab, &mi, mf.as_ref(), sc, &walk(start, start.saturating_add(gl).min(MAXI)));
+            let mut st = MockStore { find, store_ok, asked: None, stored: None };
+            let res = catch(std::panic::AssertUnwindSafe(|| {
+                generate_gap_addresses(&mut st, &g, 0u32, &i, f.as_ref(), scope_of(sc), r, require_key)
+            }));
+            let o = match res {
+                None => PANIC.into(),
+                Some(Ok(())) => ok(opt(st.stored.as_ref().map(|l| p_glist(l)))),
+                Some(Err(GapAddressesError::Storage(()))) => "(Err GGStorage)".into(),
+                Some(Err(GapAddressesError::AddressGeneration(e))) => format!("(Err (GGAddress {}))", p_aerr_inner(&e, sc)),
+                Some(Err(GapAddressesError::AccountUnknown)) => "(Err GGStorage)".into(),
+            };
+            let pfind = match find {
+                Err(()) => "(Err tt)".to_string(),
+                Ok(x) => ok(opt(x.map(|v| v.index().to_string()))),
+            };
+            case(format!(
+                "CGap (GGen {} (mkGapLimits {} {} {}) {} {} {} {} {} {} {} {})",
+                tab.print(), e, ii, p, p_uivk(&mi), pf, sc, p_request(&r), boolc(require_key), pfind, boolc(store_ok), o
+            ));
+            cx.st.hit("gap_generate");
+        }
+    }
 }
 
 // ---------------------------------------------------------------------------------------------
@@ -1577,7 +2092,12 @@ fn main() {
                 find_case(&mut cx, &Lvl::Ufvk(ufvk.clone()), net, (1u128 << 88) - 1 - d, r);
             }
         }
-        legacy_cases(&mut cx, net, usk);
+        if ki < 3 || a.thorough() || a.search {
+            legacy_cases(&mut cx, usk);
+        }
+        ua_codec_cases(&mut cx, net, &uivk);
+        let n_gap = if a.search || a.thorough() { 120 } else { 60 };
+        gap_cases(&mut cx, net, &isubs, &fsubs, &reqs, n_gap);
     }
     crypto_cases(&mut cx, &keys);
     stat(format!(
